@@ -176,7 +176,7 @@ var intrinsicNames = map[string]bool{
 	"vRequires": true, "vEnsures": true, "vAssert": true, "vAssume": true, "vForall": true, "vExists": true,
 	"vSameRegion": true, "vOffset": true, "vModifiesBytes": true, "vModifiesAll": true, "vFresh": true,
 	"vCanary": true, "vAllocs": true, "vUnreachable": true, "vModifiesObj": true, "vNoAlias": true, "vOpaque": true,
-	"vModifiesNothing": true, "vBorrowed": true, "vIsFreshRegion": true, "vModifiesHeap": true, "vStrictLen": true, "vAtEntry": true, "vKeptOrNew": true, "vWireCount": true, "vWireLast": true, "vModifiesWire": true, "vFuel": true, "vModifiesMems": true, "vReveal": true, "vModifiesField": true, "vMapAll": true, "vWireEach": true,
+	"vModifiesNothing": true, "vBorrowed": true, "vIsFreshRegion": true, "vModifiesHeap": true, "vStrictLen": true, "vAtEntry": true, "vKeptOrNew": true, "vWireCount": true, "vWireLast": true, "vModifiesWire": true, "vFuel": true, "vModifiesMems": true, "vReveal": true, "vModifiesField": true, "vMapAll": true, "vWireEach": true, "vSpawned": true, "vTrusted": true,
 }
 
 // intrinsicName: the name of an intrinsic, with generic instantiations mapped to their origin.
@@ -218,6 +218,13 @@ func (e *Engine) callStatic(fr *Frame, st *State, callee *ssa.Function, args []V
 			return r
 		case modeApply:
 			e.applyModifies(st, h)
+			// the callee may allocate: the allocation counter is only known to have grown
+			// (a contract that states vAllocs() afterwards pins it)
+			if g, ok := st.ghost["allocs"]; ok {
+				ng := FreshVar("allocs", 64)
+				st.assume(BVUle(g, ng))
+				st.ghost["allocs"] = ng
+			}
 			h.holeBlock = site.Block()
 			h.holePC = st.pc
 			res := e.havocResults(st, callee.Signature, "ret."+harnessSuffix(callee))
@@ -657,6 +664,20 @@ func (e *Engine) intrinsic(fr *Frame, st *State, callee *ssa.Function, args []Va
 			e.wireEach = args[0].C
 		}
 		return nil
+	case "vTrusted":
+		// the rest of this path of the contract is not verified: when the contract is applied
+		// its postconditions are used all the same, so the case is listed as an assumption
+		if h != nil && h.mode == modeVerify {
+			msg := "unverified case"
+			if cs := e.stringConst(st, args[0]); cs != "" {
+				msg = cs
+			}
+			e.assumedExterns["TRUSTED case of "+h.name+": "+msg] = true
+			st.assume(False)
+		}
+		return nil
+	case "vSpawned":
+		return []Value{scalar(e.ghostGet(st, "spawned", IntSort))}
 	case "vWireCount":
 		return []Value{scalar(e.ghostGet(st, "wire.count", IntSort))}
 	case "vWireLast":
@@ -936,9 +957,7 @@ func (e *Engine) goCall(fr *Frame, st *State, g *ssa.Go) {
 	for _, a := range g.Call.Args {
 		_ = e.val(fr, a)
 	}
-	if sp, ok := st.ghost["spawned"]; ok {
-		st.ghost["spawned"] = BVAdd(sp, BVConst(1, 64))
-	}
+	st.ghost["spawned"] = BVAdd(e.ghostGet(st, "spawned", IntSort), BVConst(1, IntSort))
 	e.assumedExterns["go statement: the spawned goroutine is not executed (sequential semantics)"] = true
 }
 
@@ -1022,6 +1041,22 @@ func (e *Engine) stringSliceConsts(st *State, v Value) []string {
 		out = append(out, lit)
 	}
 	return out
+}
+
+// stringConst: the value of a string argument when it is a literal ("" otherwise).
+func (e *Engine) stringConst(st *State, v Value) string {
+	if len(v.T) < 3 || !v.T[0].IsConst() || !v.T[1].IsConst() || !v.T[2].IsConst() {
+		return ""
+	}
+	lit, ok := e.litByID[v.T[0].val.Uint64()]
+	if !ok {
+		return ""
+	}
+	o, n := int(v.T[1].val.Int64()), int(v.T[2].val.Int64())
+	if o < 0 || n < 0 || o+n > len(lit) {
+		return ""
+	}
+	return lit[o : o+n]
 }
 
 func (m *modClause) coversLeaf(path string) bool {
@@ -1435,7 +1470,7 @@ func (e *Engine) ghostGet(st *State, name string, s Sort) *Term {
 		return g
 	}
 	g := Var("ghost0."+name, s)
-	if name == "wire.count" {
+	if name == "wire.count" || name == "spawned" {
 		st.assume(And(BVSle(BVConst(0, IntSort), g), BVSlt(g, BVConstU(1<<40, IntSort))))
 	}
 	st.ghost[name] = g
@@ -1476,7 +1511,11 @@ func (e *Engine) checkWireEach(fr *Frame, st *State, before *Term, site ssa.Inst
 	}
 	ss, q := fr.spec, fr.quiet
 	fr.spec, fr.quiet = false, false
+	// named per harness (the k-th send encountered), not per call chain: "every frame sent
+	// satisfies P" is one claim of the harness, however the sends are reached
+	e.oblBase = "sends"
 	e.oblige(fr, st, "wire-each", site, goal, "frame handed to the connection satisfies the harness's vWireEach predicate")
+	e.oblBase = ""
 	fr.spec, fr.quiet = ss, q
 }
 
